@@ -262,7 +262,9 @@ class GroupedRecord(Record):
                 fname = field.name
                 if fname in self.fieldname_to_record:
                     continue
-                self.fieldname_to_record[fname] = rec
+                # a nested group is flattened into self.records above: map the field to the member that owns it, not to
+                # the nested group (whose own attributes name, records, ... would shadow a member field of that name)
+                self.fieldname_to_record[fname] = rec.fieldname_to_record[fname] if isinstance(rec, GroupedRecord) else rec
                 if fname not in required_fields:
                     self.flat_fields.append(field)
         # flat descriptor to maintain compatibility with Record
